@@ -139,6 +139,7 @@ func batchMaps(g int) (map[string][]byte, map[string][]byte) {
 
 type concCase struct {
 	id      string
+	kind    string
 	run     *ev.Run
 	top     *storage.MemCachedStore
 	layers  []*storage.MemCachedStore
@@ -180,6 +181,11 @@ func (c *concCase) rec(cid int, in regIn, f func() string) {
 
 func (c *concCase) violation(sig, detail string) {
 	c.nvio.Add(1)
+	if c.kind != "mem" {
+		// the lower store is a real database here: name it, a fault of the
+		// backend and a fault of the cache layer must not share a signature
+		sig += ":over-" + c.kind
+	}
 	c.mu.Lock()
 	notes := append([]string(nil), c.notes...)
 	c.mu.Unlock()
@@ -501,7 +507,7 @@ func (c *concCase) keySeeker(r *rng.R, n int) {
 func runConcCase(run *ev.Run, idx int, tmp string) {
 	id := fmt.Sprint("hist", idx)
 	r := rng.New(uint64(idx) + 19_000_000)
-	c := &concCase{id: id, run: run}
+	c := &concCase{id: id, run: run, kind: "mem"}
 	kind := "mem"
 	switch r.Intn(10) {
 	case 0:
@@ -509,6 +515,7 @@ func runConcCase(run *ev.Run, idx int, tmp string) {
 	case 1:
 		kind = "leveldb"
 	}
+	c.kind = kind
 	depth := 1 + r.Intn(2)
 	nWriters := 1
 	if r.Intn(4) == 0 {
